@@ -92,7 +92,7 @@ func specNameIs(nm [8]byte, tab []byte, s string) bool {
 //@ ensures[nameM] specNameIsM(result0, offsetMap, name)
 //@ ensures[mono] forallStrings(func(k string) bool { return old(specHas(offsetMap, k)) ==> specHas(offsetMap, k) && offsetMap[k] == old(offsetMap[k]) })
 //@ ensures[monoP] old(specHas(offsetMap, name)) ==> offsetMap[name] == old(offsetMap[name])
-//@ assigns Buffer.buf, map[string]uint32
+//@ assigns stringTable->Buffer.buf, offsetMap->map[string]uint32
 
 // specPadByte: byte i of a NUL padded field holding s.
 func specPadByte(b byte, s string, i int) bool {
@@ -209,27 +209,30 @@ func specNamesSmall(l []string) bool {
 //@ loop 1 invariant[tablen] using(tabptr, tablen, convertNameToBytes.bound) len(stringTable.Bytes()) <= iter*4097
 //@ loop 1 invariant[tab] using(tabptr, tab, convertNameToBytes.tab) specStrTabOK(stringTable.Bytes(), stringTableOffsetMap)
 //@ loop 1 invariant[flds] using(len, flds) forall(0, iter, func(j int) bool { return specUserFields(allEntries[4+j]) })
+//@ loop 1 invariant[auxp] using(sec, len, auxp) forall(4, len(allEntries), func(i int) bool { return specAuxOK(allEntries[i]) })
 //@ loop 1 invariant[syms] using(len, tabptr, syms, convertNameToBytes.nameM, convertNameToBytes.mono) forall(0, iter, func(j int) bool { return specUserSymM(allEntries[4+j], stringTableOffsetMap, ctx.GlobalSymbolList[j], specHas32(ctx.SymTable, ctx.GlobalSymbolList[j]), ctx.SymTable[ctx.GlobalSymbolList[j]]) })
 //@ loop 2 invariant[len] using(len) len(allEntries) == 4+len(ctx.GlobalSymbolList)+iter
 //@ loop 2 invariant[tabptr] using(tabptr) stringTable != nil && stringTableOffsetMap != nil
 //@ loop 2 invariant[tablen] using(tabptr, tablen, convertNameToBytes.bound) len(stringTable.Bytes()) <= (len(ctx.GlobalSymbolList)+iter)*4097
 //@ loop 2 invariant[tab] using(tabptr, tab, convertNameToBytes.tab) specStrTabOK(stringTable.Bytes(), stringTableOffsetMap)
 //@ loop 2 invariant[flds] using(len, flds) forall(0, len(ctx.GlobalSymbolList)+iter, func(j int) bool { return specUserFields(allEntries[4+j]) })
+//@ loop 2 invariant[auxp] using(len, auxp) forall(4, len(allEntries), func(i int) bool { return specAuxOK(allEntries[i]) })
 //@ loop 2 invariant[syms] using(len, tabptr, syms, convertNameToBytes.mono) forall(0, len(ctx.GlobalSymbolList), func(j int) bool { return specUserSymM(allEntries[4+j], stringTableOffsetMap, ctx.GlobalSymbolList[j], specHas32(ctx.SymTable, ctx.GlobalSymbolList[j]), ctx.SymTable[ctx.GlobalSymbolList[j]]) })
 //@ loop 2 invariant[exts] using(len, tabptr, exts, convertNameToBytes.nameM, convertNameToBytes.mono) forall(0, iter, func(k int) bool { return specNameIsM(allEntries[4+len(ctx.GlobalSymbolList)+k].Main.Name, stringTableOffsetMap, ctx.ExternSymbolList[k]) })
 //@ loop 2 invariant[extv] using(len, extv) forall(len(ctx.GlobalSymbolList), len(ctx.GlobalSymbolList)+iter, func(j int) bool { return allEntries[4+j].Main.SectionNumber == 0 && allEntries[4+j].Main.Value == 0 })
 //@ ensures[count@C08] using(len) len(result0) == 4+len(ctx.GlobalSymbolList)+len(ctx.ExternSymbolList)
-//@ ensures[file@C09] using(sec, file, len, prefix, sort) specFileSym(result0[0], ctx.SourceFileName)
-//@ ensures[section1] using(sec, shape, secmain, secaux1, len, prefix, sort) specSectionSym(result0[1], 0, textDataSize)
-//@ ensures[section2] using(sec, shape, secmain, secaux2, len, prefix, sort) specSectionSym(result0[2], 1, dataDataSize)
-//@ ensures[section3] using(sec, shape, secmain, secaux3, len, prefix, sort) specSectionSym(result0[3], 2, bssDataSize)
-//@ ensures[aux.fixed@C08] using(sec, shape, file, secmain, secaux1, secaux2, secaux3, len, prefix, sort) specAuxOK(result0[0]) && specAuxOK(result0[1]) && specAuxOK(result0[2]) && specAuxOK(result0[3])
-//@ ensures[user] using(len, flds, sort) forall(0, len(result0)-4, func(a int) bool { return specUserFields(result0[4+a]) && specAuxOK(result0[4+a]) })
-//@ ensures[order@C09] using(len, sort) forall(0, len(result0)-4, func(a int) bool { return forall(a+1, len(result0)-4, func(b int) bool { return (result0[4+a].Main.SectionNumber == 0 ==> result0[4+b].Main.SectionNumber == 0) && (result0[4+b].Main.SectionNumber != 0 ==> result0[4+a].Main.Value <= result0[4+b].Main.Value) }) })
-//@ ensures[names.range@C09] using(len, sort) forall(0, len(result0)-4, func(a int) bool { return 0 <= vcSortPerm(a) && vcSortPerm(a) < len(result0)-4 })
-//@ ensures[names.globals@C09] using(len, tabptr, syms, sort) forall(0, len(result0)-4, func(a int) bool { return vcSortPerm(a) < len(ctx.GlobalSymbolList) ==> specUserVals(result0[4+a], ctx.GlobalSymbolList[vcSortPerm(a)], specHas32(ctx.SymTable, ctx.GlobalSymbolList[vcSortPerm(a)]), ctx.SymTable[ctx.GlobalSymbolList[vcSortPerm(a)]]) })
-//@ ensures[names.externs@C09] using(len, extv, sort) forall(0, len(result0)-4, func(a int) bool { return vcSortPerm(a) >= len(ctx.GlobalSymbolList) ==> result0[4+a].Main.SectionNumber == 0 && result0[4+a].Main.Value == 0 })
-//@ assigns Buffer.buf, map[string]uint32, SymbolEntry[]
+//@ ensures[file@C09] using(sec, file, len, prefix, frame.sort) specFileSym(result0[0], ctx.SourceFileName)
+//@ ensures[section1] using(sec, shape, secmain, secaux1, len, prefix, frame.sort) specSectionSym(result0[1], 0, textDataSize)
+//@ ensures[section2] using(sec, shape, secmain, secaux2, len, prefix, frame.sort) specSectionSym(result0[2], 1, dataDataSize)
+//@ ensures[section3] using(sec, shape, secmain, secaux3, len, prefix, frame.sort) specSectionSym(result0[3], 2, bssDataSize)
+//@ ensures[aux.fixed@C08] using(sec, shape, file, secmain, secaux1, secaux2, secaux3, len, prefix, frame.sort) specAuxOK(result0[0]) && specAuxOK(result0[1]) && specAuxOK(result0[2]) && specAuxOK(result0[3])
+//@ ensures[aux.all@C08] using(len, auxp, sec, shape, file, secmain, secaux1, secaux2, secaux3, prefix, elems.sort, frame.sort, perm.sort) forall(0, len(result0), func(i int) bool { return specAuxOK(result0[i]) })
+//@ ensures[user] using(len, flds, elems.sort, perm.sort) forall(0, len(result0)-4, func(a int) bool { return specUserFields(result0[4+a]) && specAuxOK(result0[4+a]) })
+//@ ensures[order@C09] using(len, order.sort) forall(0, len(result0)-4, func(a int) bool { return forall(a+1, len(result0)-4, func(b int) bool { return vcSortFact(a, b) && (result0[4+a].Main.SectionNumber == 0 ==> result0[4+b].Main.SectionNumber == 0) && (result0[4+b].Main.SectionNumber != 0 ==> result0[4+a].Main.Value <= result0[4+b].Main.Value) }) })
+//@ ensures[names.range@C09] using(len, perm.sort) forall(0, len(result0)-4, func(a int) bool { return 0 <= vcSortPerm(a) && vcSortPerm(a) < len(result0)-4 })
+//@ ensures[names.globals@C09] using(len, tabptr, syms, elems.sort, perm.sort) forall(0, len(result0)-4, func(a int) bool { return vcSortPerm(a) < len(ctx.GlobalSymbolList) ==> specUserVals(result0[4+a], ctx.GlobalSymbolList[vcSortPerm(a)], specHas32(ctx.SymTable, ctx.GlobalSymbolList[vcSortPerm(a)]), ctx.SymTable[ctx.GlobalSymbolList[vcSortPerm(a)]]) })
+//@ ensures[names.externs@C09] using(len, extv, elems.sort, perm.sort) forall(0, len(result0)-4, func(a int) bool { return vcSortPerm(a) >= len(ctx.GlobalSymbolList) ==> result0[4+a].Main.SectionNumber == 0 && result0[4+a].Main.Value == 0 })
+//@ assigns using() nothing
 
 // specSectionMain / specSectionAux: the two halves of specSectionSym.
 func specSectionMain(m CoffSymbol, idx int) bool {
@@ -256,3 +259,29 @@ func specSize3(j int, a, b, c uint32) uint32 {
 	}
 	return c
 }
+
+// specRecords: number of 18-byte records (main + auxiliary) of the first k entries.
+func specRecords(es []SymbolEntry, k int) uint32 {
+	if k <= 0 {
+		return 0
+	}
+	return specRecords(es, k-1) + 1 + uint32(es[k-1].Main.NumberOfAuxSymbols)
+}
+
+//@ func (*CoffFormat).Write
+//@ props C08 C09 C13
+//@ requires c != nil && ctx != nil
+//@ requires[A14] specNamesSmall(ctx.GlobalSymbolList) && specNamesSmall(ctx.ExternSymbolList)
+//@ requires[A17] len(ctx.MachineCode) < 1<<30
+//@ loop 0 invariant[bufs] buf != nil && symbolTableResultBytes != nil && len(buf.Bytes()) == 140+len(ctx.MachineCode) && len(symbolTableResultBytes.Bytes()) == 18*int(numSymbolsWritten) && int(numSymbolsWritten) <= 2*iter
+//@ loop 0 invariant[recs] numSymbolsWritten == specRecords(allSymbolEntries, iter)
+//@ loop 0 invariant[wf] len(allSymbolEntries) <= 4+(1<<17) && forall(0, len(allSymbolEntries), func(i int) bool { return specAuxOK(allSymbolEntries[i]) })
+//@ loop 1 invariant[hdrs] using(hdrs, bufs) len(sectionHeaders) == 3 && currentOffset == 20+40*iter && len(finalBytes) == 140+len(ctx.MachineCode)+18*int(numSymbolsWritten)+4+len(stringTableBytes)
+//@ loop 1 invariant[text] using(hdrs, text) iter <= 3 && forall(0, len(ctx.MachineCode), func(i int) bool { return finalBytes[140+i] == ctx.MachineCode[i] })
+//@ calls[hdr] (*filefmt.CoffFormat).generateHeader : arg2 == 3 && arg3 == uint32(140+len(ctx.MachineCode))
+//@ calls[secs] (*filefmt.CoffFormat).generateSectionHeaders : arg2 == 140 && arg3 == uint32(len(ctx.MachineCode)) && arg7 == uint32(140+len(ctx.MachineCode))
+//@ final[layout@C08] using(bufs, recs, hdrs) symbolTableOffset == uint32(140+len(ctx.MachineCode)) && textDataOffset == 140 && textDataSize == uint32(len(ctx.MachineCode)) && header.NumberOfSymbols == specRecords(allSymbolEntries, len(allSymbolEntries)) && header.PointerToSymbolTable == symbolTableOffset && len(finalBytes) == 140+len(ctx.MachineCode)+18*int(header.NumberOfSymbols)+4+len(stringTableBytes) && stringTableTotalSize == uint32(len(stringTableBytes)+4)
+//@ final[hdrvals@C08] using(hdrs) header.Machine == 0x14c && header.NumberOfSections == 3 && header.SizeOfOptionalHeader == 0 && len(sectionHeaders) == 3 && sectionHeaders[0].SizeOfRawData == uint32(len(ctx.MachineCode)) && sectionHeaders[0].PointerToRawData == 140 && sectionHeaders[0].NumberOfRelocations == 0 && sectionHeaders[1].SizeOfRawData == 0 && sectionHeaders[1].PointerToRawData == 0 && sectionHeaders[2].SizeOfRawData == 0 && sectionHeaders[2].PointerToRawData == 0 && specName8(sectionHeaders[0].Name, ".text") && specName8(sectionHeaders[1].Name, ".data") && specName8(sectionHeaders[2].Name, ".bss")
+//@ final[text@C09] using(hdrs, text) forall(0, len(ctx.MachineCode), func(i int) bool { return finalBytes[140+i] == ctx.MachineCode[i] })
+//@ ensures[once] result0 == nil ==> vcWriteCount() == 1
+//@ assigns *
